@@ -21,6 +21,15 @@ checks = {
  "C06": dict(design="4/C06",
    text="Bounded symbolic execution of parser.Parse with and without callback on the same path: sufficient malformedness conditions on the real lexer's token stream (unbalanced brackets, unterminated string/backquote/heredoc, last token cannot end a program) imply >= 1 reported error; zero errors imply a non-nil tree that tiles and re-prints the source; every error has a message, an in-range position with the reference line numbers (SMT), syntax errors select a token of the stream, errors arrive in source order; the nil-callback tree equals the callback tree (tokens, free-floating tokens, positions).",
    note="Completeness of the malformedness oracle (every invalid program) is not claimed: the conditions are sufficient, not necessary. Bounds as listed in the evidence."),
+ "C12": dict(design="4/C12",
+   text="Per node kind (kinds and slots read from pkg/ast/node.go on every run): symbolic execution of Traverser.Traverse on a synthetic node whose child slots are symbolically present/absent with lists of length 0..2, recording visitor; asserted: parent first, every present child exactly once, nothing else, slot order. On parsed trees (bounded symbolic inputs): visit sequence == pre-order of the tree, no node object reachable twice, declaration order == source order of siblings (which licenses the per-kind order oracle).",
+   note="The per-kind space is a finite set of presence/length choices: the solver's role there is enumeration of feasible choice vectors (full product up to 6 child slots; beyond that all-present/all-absent/one-absent/one-present). Parsed-tree part bounded to the short shapes in the evidence."),
+ "C15": dict(design="4/C15",
+   text="Per node kind: symbolic execution of the printer on a synthetic node whose token and child slots are symbolically present/absent (marker tokens with one free-floating marker each, marker children, lists 0..2 with separators none/len-1/len); asserted: every present token contributes free-floating text then value exactly once, every present child exactly once, separators interleaved, slot order, nothing foreign, and at most one constant chunk per absent token (plus glue spaces).",
+   note="Finite presence/length space enumerated through the solver (full product up to 6 slots, otherwise one-hot families). Which constant the printer substitutes for an absent token is not checked here (a wrong default lexeme is only caught where C17/C02-style re-parsing covers it). Locality on parsed trees follows from exact-once-in-order per kind; not separately explored yet."),
+ "C16": dict(design="4/C16",
+   text="Per node kind x the four WithTokens/WithPositions combinations: symbolic execution of the dumper on a synthetic node with every child/token/value/position slot symbolically present or absent; the dump text is read back by a reader for the dumper's layout and compared with the node through the generated slot accessors: literal type, every non-empty slot exactly once under its field name (Val for byte values, Position for positions), tokens/positions only when requested, equal content recursively, nothing else.",
+   note="Finite presence space enumerated through the solver. Marker values are concrete ASCII; quoting of arbitrary bytes is covered on parsed trees only where listed in the evidence. Syntactic validity is decided by the harness's reader (natively the same reader), not by go/parser."),
 }
 na = {}
 ALL = ["C%02d" % i for i in range(1, 19)]
